@@ -243,6 +243,42 @@ def mk_pipeline_quiet(name, twin=None, params=None, debug_logging=False):
     return body
 
 
+def mk_after_a_display_run(name, params):
+    """a plain run gives the same results before and after a run with --display-coupled-residues in the same process: the display
+    mode swaps interactions for its own output and leaves nothing behind (structures with coupled pairs: thresholds relaxed)"""
+    def body(ctx):
+        from . import micro as M
+        import os
+        if name == '1HPX':
+            # the repository's own test structure (input only, shipped parameters): its coupled system ASP 25 A / ASP 25 B is one
+            # whose swapped state differs from the default one; concrete run (no shift: 1500 atoms)
+            txt = open(os.path.join(H.REPO, 'tests', 'pdb', '1HPX.pdb')).read()
+            tr = None
+        else:
+            txt = M.text(name)
+            k = ctx.int('shift_thousandths', 0, 2509)
+            t = k / 1000.0 if ctx.native else k / 1000
+
+            def tr(a):
+                a.z = a.z + t
+        other = ctx.choice('display_run_on', ['the same structure', 'another structure'])
+        before = M.run(txt, transform=tr, params=params)
+        M.run(txt if other == 'the same structure' else M.text('pair_ASP_ASP' if name != 'pair_ASP_ASP' else 'pep8'), args=['-d'], params=params if (other == 'the same structure' or params) else M.COUPLED)
+        after = M.run(txt, transform=tr, params=params)
+        ctx.claim('coupled-pairs-present', any(g.non_covalently_coupled_groups for g in before.conformations[before.conformation_names[0]].groups))
+        for cname in list(before.conformation_names) + ['AVR']:
+            gb, ga = before.conformations[cname].groups, after.conformations[cname].groups
+            ctx.claim('same-groups', [g.label for g in gb] == [g.label for g in ga])
+            for a, b in zip(gb, ga):
+                ctx.claim('pka-as-before-the-display-run', eq(a.pka_value, b.pka_value), detail='%s in %s: %r vs %r' % (a.label, cname, a.pka_value, b.pka_value))
+                for kind in KINDS:
+                    da = sorted(((d.label, d.value) for d in a.determinants[kind]), key=lambda x: (x[0], float(x[1]) if not hasattr(x[1], 'e') else 0))
+                    db = sorted(((d.label, d.value) for d in b.determinants[kind]), key=lambda x: (x[0], float(x[1]) if not hasattr(x[1], 'e') else 0))
+                    ctx.claim('determinants-as-before-the-display-run', len(da) == len(db) and all(x[0] == y[0] and bool(eq(x[1], y[1])) for x, y in zip(da, db)),
+                              detail='%s %s: %r vs %r' % (a.label, kind, da, db))
+    return body
+
+
 def obligations(tier):
     CGm = 'propka/coupled_groups.py:NonCovalentlyCoupledGroups.'
     code = [CGm + 'is_coupled_protonation_state_probability', CGm + 'swap_interactions', CGm + 'transfer_determinant',
@@ -272,6 +308,12 @@ def obligations(tier):
     fx = [('pair_ASP_ASP', None), ('pair_ASP_ARG', None), ('pair_ASP_ARG', (30, 29))]
     if tier == 'thorough':
         fx += [('pair_GLU_ARG_TYR', None), ('pair_LYS_ASP', None), ('pep8', None), ('pep8', (30, 29)), ('nterm_ASP_LYS', None)]
+    from . import micro as MM0
+    for name in (['1HPX', 'pair_ASP_ASP'] if tier == 'quick' else ['1HPX', 'pair_ASP_ASP', 'pep8']):
+        obs.append(Obligation('O5-plain-run-after-a-display-run[%s]' % (name if name == '1HPX' else name + ',coupled'), mk_after_a_display_run(name, None if name == '1HPX' else MM0.COUPLED),
+                              code=[CGm + 'identify_non_covalently_coupled_groups', CGm + 'print_out_swaps', CGm + 'print_system', CGm + 'swap_interactions', 'propka/run.py:single (whole pipeline)'],
+                              bounds=('the test structure 1HPX with the shipped parameters' if name == '1HPX' else 'micro-structure %s (burial on, coupling thresholds relaxed) under a symbolic grid shift' % name) + ': plain run, then a -d run on the same or on another structure, then the plain run again, in one process',
+                              claim_doc='every pKa and determinant of the second plain run equals the first', max_paths=5000, wall_s=170 if tier == 'quick' else 900))
     for name, twin in fx:
         obs.append(Obligation('O4-pipeline-undisturbed[%s%s]' % (name, ',%d->%dA' % twin if twin else ''), mk_pipeline_quiet(name, twin),
                               code=[CGm + 'identify_non_covalently_coupled_groups'] + code + ['propka/run.py:single (whole pipeline)'],
